@@ -11,7 +11,7 @@ def povmt_target_item : Int := 1
 /-- quara/protocol/qtomography/standard/standard_qpt.py:205 `_get_target_index`: position of the unknown in a schedule -/
 def qpt_target_item : Int := 1
 
-/-- quara/protocol/qtomography/standard/standard_qmpt.py:210 `_get_target_index`: position of the unknown in a schedule -/
+/-- quara/protocol/qtomography/standard/standard_qmpt.py:208 `_get_target_index`: position of the unknown in a schedule -/
 def qmpt_target_item : Int := 1
 
 /-- quara/protocol/qtomography/standard/standard_qst.py:126 `_set_coeffs`: item of the schedule that names the tester POVM (−1 = last) -/
@@ -58,13 +58,13 @@ def povmt_row {K : Type} [Mul K] [Sub K] [Zero K] (flag : Bool) (r : K) (m : Nat
 
 def qmpt_key (schedule_index element_index : Nat) : Nat × Nat := (schedule_index, element_index)
 
-/-- quara/protocol/qtomography/standard/standard_qmpt.py:293 `cqpt_to_cqmpt`: columns of `d_qpt` / start of `e_qpt`, number of diagonal blocks with and without the flag, column of `d_qpt` that gives `b_1` -/
+/-- quara/protocol/qtomography/standard/standard_qmpt.py:280 `cqpt_to_cqmpt`: columns of `d_qpt` / start of `e_qpt`, number of diagonal blocks with and without the flag, column of `d_qpt` that gives `b_1` -/
 def qmpt_d_cols (dim : Nat) : Nat := (dim ^ 2)
 def qmpt_e_from (dim : Nat) : Nat := (dim ^ 2)
 def qmpt_blocks_flag (m : Nat) : Nat := (m - 1)
 def qmpt_blocks (m : Nat) : Nat := m
 def qmpt_b1_col : Nat := 0
-/-- quara/protocol/qtomography/standard/standard_qmpt.py:116 `num_outcomes` -/
+/-- quara/protocol/qtomography/standard/standard_qmpt.py:114 `num_outcomes` -/
 def qmpt_num_outcomes (num_outcomes_povm num_outcomes_mprocess : Nat) : Nat := (num_outcomes_povm * num_outcomes_mprocess)
 
 /-- standard_qtomography.py: `calc_matA / calc_vecB` = `sorted(dict.items())` → values → vstack; `calc_prob_dists` = `matA @ var + vecB`, `reshape((num_schedules, -1))`, `truncate_and_normalize`; `calc_prob_dist` = entry `[schedule_index]` (checked structurally by the translator, which raises otherwise) -/
